@@ -101,4 +101,26 @@ PROPS = {
         'assumptions': ['trace parsing (mmap, bit-field unpacking, sort by f32 time) is exercised through the binary but not modelled',
                         'the replay binary is built from /repo by cargo into harness/target-replay'],
     },
+    'C07': {
+        'oracles': ['C07'],
+        'geoms': {'quick': ['default', 'th2'], 'thorough': ALLG},
+        'runs': {'quick': [seq('handoff', 30, 150)], 'thorough': [seq('handoff', 600, 300), seq('mixed', 200, 300)]},
+        'rule': S_RULE + (' Handoff: at random quiescent points a second allocator is constructed with Init::None over byte copies '
+                          'of the three buffers; both are driven with the identical continuation and compared (results, digest of '
+                          'all buffers, stats, tree_stats) after every call; the primary is also rebuilt in place from its own buffers.'),
+        'assumptions': ['the implementation keeps no state outside (configuration, three buffers): exactly what the twin run measures'],
+    },
+    'C17': {
+        'oracles': ['C17', 'C08'],
+        'geoms': {'quick': ['default', 'th1'], 'thorough': ALLG},
+        'runs': {'quick': [seq('zone', 30, 150), unit('nvm', 40)], 'thorough': [seq('zone', 600, 300), unit('nvm', 2000)]},
+        'rule': ('zone wrapper: histories through ZoneAlloc with offsets k*TREE_FRAMES (and misaligned offsets, which must be refused), '
+                 'targets/frees below, at and above the offset, frees that forgot the offset, stats_at through the wrapper; persistent '
+                 'wrapper: anonymous memory regions of 1..3 trees plus odd remainders and tiny regions at several aligned bases: '
+                 'recover of the untouched region (must be refused), create, random history through NvmAlloc (every returned block must '
+                 'lie inside the managed frames), forget + recover (same statistics, every held block freeable), recover with a '
+                 'different size (must be refused); layout and all results compared with the Lean model. '
+                 'distinct_nontrivial = distinct (operation, result, shape) signatures.'),
+        'assumptions': ['the header page accesses (two AtomicUsize stores/loads) are run, not modelled beyond nvmHeaderOk'],
+    },
 }
